@@ -39,6 +39,8 @@ class _CondGen:
         self.new_zones = iter([('zc1', 0x500, 0x50f), ('zc2', 0x600, 0x60f), ('zc3', 0x700, 0x70f)])
         self.created = []
         self.files = files
+        self.body_syms = ['OPT_A', 'OPT_B', 'OPT_C', 'OPT_D', 'WITH_X', 'WITH_Y']
+        self.defined = set()
 
     def data(self):
         self.byte = (self.byte + 1) & 0xFF
@@ -49,30 +51,34 @@ class _CondGen:
         out = []
         for _ in range(rng.randint(0, 4)):
             r = rng.random()
-            if r < 0.3:
+            if r < 0.28:
                 out.append(self.data())
-            elif r < 0.45:
-                out.append(['define', rng.choice(SYMS), rng.choice(['0', '1', '2', '5'])])
-            elif r < 0.55:
+            elif r < 0.40:
+                # mostly fresh names (a second definition of a name is an error when both are selected)
+                fresh = [x for x in self.body_syms if x not in self.defined]
+                nm = rng.choice(fresh) if fresh and rng.random() < 0.85 else rng.choice(SYMS)
+                self.defined.add(nm)
+                out.append(['define', nm, rng.choice(['0', '1', '2', '5'])])
+            elif r < 0.48:
                 z = next(self.new_zones, None) if rng.random() < 0.6 or not self.created else rng.choice(self.created)
                 if z:
                     self.created.append(z)
                     out.append(['createzone', z[0], z[1], z[2]])
-            elif r < 0.7:
+            elif r < 0.62:
                 # only zones that certainly exist: the implementation parses lines of unselected branches too and rejects
                 # a reference to an unknown zone there, which the property does not speak about (DESIGN.md section 8)
                 cands = self.zones + ['GLOBAL']
                 z = rng.choice(cands)
                 out.append(['memzone', z] if rng.random() < 0.6 else ['org', num(rng.choice([0, 2, 8])), z])
                 out.append(self.data())
-            elif r < 0.8:
+            elif r < 0.70:
                 nm = next(self.labels, None)
                 if nm:
                     out.append(['label', nm])
                     out.append(self.data())
-            elif r < 0.88 and depth > 0:
+            elif r < 0.82 and depth > 0:
                 out += self.chain(depth - 1)
-            elif r < 0.93 and self.files is not None and len(self.files) < 3:
+            elif r < 0.86 and self.files is not None and len(self.files) < 3:
                 idx = len(self.files)
                 name = f'cinc{idx}.asm'
                 self.files.append({'name': name, 'dir': 'src', 'stmts': [self.data(), self.data()]})
@@ -94,10 +100,11 @@ class _CondGen:
                 out.append(['elif', rng.choice([['cmp', s, '==', '5'], ['bare', s], ['cmp', s, '>=', '1']])])
                 out += self.body(depth)
         else:
-            out.append(['if', _cond(rng, SYMS)])
+            pool = SYMS + sorted(self.defined)
+            out.append(['if', _cond(rng, pool)])
             out += self.body(depth)
             for _ in range(rng.choice([0, 0, 1, 2, 3])):
-                out.append(['elif', _elif_cond(rng, SYMS)])
+                out.append(['elif', _elif_cond(rng, SYMS + sorted(self.defined))])
                 out += self.body(depth)
         if rng.random() < 0.6:
             out.append(['else'])
@@ -112,14 +119,27 @@ def gen_cond_scenario(rng, tier='quick'):
     files = [{'name': 'main.asm', 'dir': 'src', 'stmts': []}]
     g = _CondGen(rng, cfg, files)
     st = [g.data()]
+    # a local label region that the chains below may or may not interrupt: a non-local label opens a new region only if
+    # its line is selected
+    use_local = rng.random() < 0.6
+    if use_local:
+        st += [['label', 'top0'], ['label', '.l1'], g.data()]
     for _ in range(rng.randint(1, 3)):
         st += g.chain(2)
         st.append(g.data())
+        if use_local:
+            r = rng.random()
+            if r < 0.3:
+                st.append(['data', 2, [('lab', '.l1')]])
+            elif r < 0.36:
+                st += [['label', '.l1'], g.data()]
         if rng.random() < 0.3:
-            st.append(['label', next(g.labels)])
+            nm = next(g.labels, None)
+            if nm:
+                st.append(['label', nm])
         # what a zone or symbol looks like after the chain shows whether an unselected line leaked
         if rng.random() < 0.5:
-            cands = g.zones + [z[0] for z in g.created]
+            cands = g.zones + ([z[0] for z in g.created] if rng.random() < 0.3 else [])
             st.append(['memzone', rng.choice(cands)])
             st.append(g.data())
         if rng.random() < 0.5:
